@@ -121,6 +121,19 @@ def preferredL : List WItem → Bool
   | x :: xs => preferred x && preferredL xs
 end
 
+mutual
+/-- no half float in the tree is a signalling NaN (the one pattern the property excludes: the
+    `f16 → f32 → f16` trip of a token quiets it). -/
+def halfQuiet : WItem → Bool
+  | .array _ xs | .arrayI xs | .map _ xs | .mapI xs => halfQuietL xs
+  | .tag _ _ x   => halfQuiet x
+  | .f16 b       => quiet16 b == b
+  | _            => true
+def halfQuietL : List WItem → Bool
+  | []      => true
+  | x :: xs => halfQuiet x && halfQuietL xs
+end
+
 /-- the numeric value of an integer token. -/
 def Token.intVal? : Token → Option Int
   | .u8 n | .u16 n | .u32 n | .u64 n => some (n : Int)
@@ -134,6 +147,12 @@ def Token.valueEq (a b : Token) : Prop :=
   | some x, some y => x = y
   | none, none => a = b
   | _, _ => False
+
+/-- pointwise value equality of token lists (same length). -/
+inductive Token.valueEqL : List Token → List Token → Prop
+  | nil : Token.valueEqL [] []
+  | cons {a b : Token} {as bs : List Token} :
+      Token.valueEq a b → Token.valueEqL as bs → Token.valueEqL (a :: as) (b :: bs)
 
 /-- the looser relation of the property text: additionally `Simple(20..23)` is identified with
     `Bool(false)`, `Bool(true)`, `Null`, `Undefined`. -/
